@@ -134,6 +134,26 @@ class Built:
                 ls[self.gt] = list(self.root_order)
             self.inp = SuperReconciliationInput(self.gt, LowestCommonAncestor(self.st), lm, leaf_syntenies=ls, **kw)
 
+    def reindexed_inplace(self, rng=None):
+        """History workload: reverse child order at (random) internal nodes of the SAME ete3 node objects, both trees,
+        then build a brand-new LowestCommonAncestor and input object on them.  Everything the harness extracts is keyed
+        by clade, so the expected results are those of the original presentation."""
+        for tree in (self.gt, self.st):
+            for node in tree.traverse("preorder"):
+                if node.children and (rng is None or rng.random() < 0.7):
+                    node.children.reverse()
+        lm = {self.gnode[v]: self.snode[s] for v, s in self.leafmap.items()}
+        costs = mk_costs(self.c) if self.c is not None else None
+        kw = {} if costs is None else {"costs": costs}
+        if self.syn is None:
+            self.inp = ReconciliationInput(self.gt, LowestCommonAncestor(self.st), lm, **kw)
+        else:
+            ls = {self.gnode[v]: list(fs) for v, fs in self.syn.items()}
+            if self.root_order is not None:
+                ls[self.gt] = list(self.root_order)
+            self.inp = SuperReconciliationInput(self.gt, LowestCommonAncestor(self.st), lm, leaf_syntenies=ls, **kw)
+        return self.inp
+
     def plain_input(self):
         """A ReconciliationInput (no syntenies) on fresh trees."""
         return Built({k: v for k, v in self.case.items() if k not in ("syn", "root_order")})
